@@ -11,6 +11,7 @@ import socket
 import stat
 import sys
 import time
+import weakref
 
 from . import errors, pathio
 from .common import (
@@ -739,6 +740,7 @@ class Server:
         """
         self._start_server_extra_arguments = kwargs
         self.connections = {}
+        self._writers = weakref.WeakSet()
         self.server_host = host
         self.server_port = port
         self.server = await asyncio.start_server(
@@ -801,18 +803,17 @@ class Server:
         """
         self.server.close()
         tasks = []
-        transports = []
         for connection in self.connections.values():
             connection._dispatcher.cancel()
             tasks.append(connection._dispatcher)
-            transports.append(connection.command_connection.writer.transport)
         logger.debug("waiting for %d tasks", len(tasks))
         if tasks:
             await asyncio.wait(tasks)
-        for transport in transports:
+        for writer in list(self._writers):
             # a peer which does not read must not hold the shutdown: what
-            # is still unsent is dropped (no-op for a closed transport)
-            transport.abort()
+            # is still unsent is dropped (no-op for a closed transport),
+            # also for sessions which ended before
+            writer.transport.abort()
         await self.server.wait_closed()
 
     async def write_line(self, stream, line):
@@ -909,6 +910,7 @@ class Server:
         Server connection handler (main routine per user).
         """
         host, port, *_ = writer.transport.get_extra_info("peername", ("", ""))
+        self._writers.add(writer)
         if not self.server.is_serving():
             # accepted just before `close()`: nobody would cancel this session
             logger.info("server is closed, dropping connection from %s:%s", host, port)
@@ -1511,6 +1513,7 @@ class Server:
     @ConnectionConditions(ConnectionConditions.login_required)
     async def pasv(self, connection, rest):
         async def handler(reader, writer):
+            self._writers.add(writer)
             session_is_over = connection.command_connection.writer.is_closing()
             if connection.future.data_connection.done() or session_is_over:
                 writer.close()
@@ -1557,6 +1560,7 @@ class Server:
     @ConnectionConditions(ConnectionConditions.login_required)
     async def epsv(self, connection, rest):
         async def handler(reader, writer):
+            self._writers.add(writer)
             session_is_over = connection.command_connection.writer.is_closing()
             if connection.future.data_connection.done() or session_is_over:
                 writer.close()
